@@ -159,20 +159,30 @@ def r1(R1, cfg, F):
         for p in paths:
             if b.blocks[p.blocks[-1]]['cleanup']:
                 continue
+            if not p.feasible():
+                continue          # (the arm set a flag -- `with_parent`, a private enum -- that a later branch contradicts)
             reaches = p.blocks[-1] == J
             if not reaches and p.end != 'return':
                 continue          # diverging call (allocation failure ...): not an exit of the handler
             sub = '*'
             parent = '*'
+            exhausted = False
             for bb, lab2 in p.decisions:
                 k = switch_kind(F, b, bb)
                 if k[0] != 'adt':
                     continue
+                if k[1] == 'std::option::Option' and k[2]['l'] == nx.dest['l'] and not k[2]['p']:
+                    # (the kind was classified before the loop: leaving the loop because there is no further path is
+                    # not an outcome for a path)
+                    exhausted = lab2 == 'sw:0' or (lab2 == 'otherwise' and any(v == '1' for v, _ in b.blocks[bb]['term']['targets']))
+                    continue
                 if k[1] == 'notify::event::ModifyKind' and mk:
                     vs = label_variants(b, bb, lab2, mk)
                     sub = vs if len(vs) > 1 else vs[0]
-                elif k[1] == 'std::option::Option' and 'std::path::Path' in k[3]:
+                elif k[1] == 'std::option::Option' and re.search(r'std::path::Path(?!Buf)', k[3]):
                     parent = 'Some' if lab2 == 'sw:1' or (lab2 == 'otherwise' and any(v == '0' for v, _ in b.blocks[bb]['term']['targets'])) else 'None'
+            if exhausted:
+                continue
             emitted = []
             okc = True
             if reaches:
